@@ -1952,8 +1952,10 @@ class Filter(Blockwise):
                     return
 
             return plain_column_projection(self, parent, dependents)
-        if isinstance(parent, Index):
-            return self.frame.index[self.predicate]
+        if isinstance(parent, Index) and not isinstance(self, FilterAlign):
+            # Only an aligned filter can take the Index: operands that still have
+            # to be aligned are repartitioned or shuffled, which a bare Index can't be
+            return Filter(self.frame.index, self.predicate)
 
 
 class Projection(Elemwise):
